@@ -301,10 +301,11 @@ CHECKS['C11'] = dict(
                 '`dirk --export-slashing-protection` (stdout and file) must state exactly the highest approved slot/source/target per key that signed; the export is imported into an empty instance '
                 '(rules API, or the binary importing the binary\'s own export file) and both twins answer a probe sequence around the watermarks identically, ending in identical state; a clean '
                 'shutdown and reopen leaves the export unchanged. Stores written with gob encodings of the old record structs (values 0, 1, 127, 128, 255, 256, 65535, 2^31, 2^62+5, random) '
-                'must export those values, refuse at/below them and approve advancing requests.'),
+                'must export those values, refuse at/below them and approve advancing requests. Thorough tier only: round trips of exports larger than one badger transaction (more than 104,857 records).'),
     level_note='Keys that never signed are not constrained (the batch path legitimately writes "none" records); all-minus-one entries are dropped before comparing exports.',
-    parts=[part('TestC11', 250, 2500, qshards=2), part('TestC11Legacy', 150, 1500, qshards=1, tshards=4)],
-    rule=('history cases are non-trivial iff >= 2 keys signed, one of them only proposals or only attestations, and some probe was refused on both twins; legacy cases iff a stored value is non-zero; '
+    parts=[part('TestC11', 250, 2500, qshards=2), part('TestC11Legacy', 150, 1500, qshards=1, tshards=4),
+           part('TestC11Big', 0, 2, qshards=1, tshards=4, shrinktime='5s')],  # 0 = not run in that tier (one case takes ~25 s)
+    rule=('history cases are non-trivial iff >= 2 keys signed, one of them only proposals or only attestations, and some probe was refused on both twins; legacy cases iff a stored value is non-zero; large-export cases (TestC11Big, thorough tier only: 104,857-109,000 signing keys) iff the export holds > 104,857 records and a probe was refused on both twins; '
           'distinct = sha256 of the case JSON'),
     essential=['round-trip-through-cli-files', 'round-trip-through-rules-api', 'probes-refused-on-both-twins', 'probes-approved-on-both-twins',
                'keys-with-only-proposals-or-only-attestations', 'legacy-non-zero-value', 'legacy-zero-value'],
